@@ -180,10 +180,11 @@ class DTWSettings:
         return settings
 
     def set_max_dist(self, s1, s2):
-        _, _, ival_fn = innerdistance.inner_dist_fns(self.inner_dist, use_ndim=self.use_ndim)
         if self.use_pruning:
-            self.adj_max_dist = ival_fn(ub_euclidean(s1, s2, inner_dist=self.inner_dist,
-                                                     use_ndim=self.use_ndim))
+            # Keep the internal representation: transforming the distance back (e.g. sqrt followed by
+            # a square) can round below the accumulated cost of the Euclidean path itself.
+            self.adj_max_dist = ub_euclidean(s1, s2, inner_dist=self.inner_dist,
+                                             use_ndim=self.use_ndim, keep_int_repr=True)
 
     def kwargs(self):
         return {
@@ -264,9 +265,9 @@ def lb_keogh(s1, s2, **kwargs):
     return result_fn(t)
 
 
-def ub_euclidean(s1, s2, inner_dist=innerdistance.default, use_ndim=False):
+def ub_euclidean(s1, s2, inner_dist=innerdistance.default, use_ndim=False, keep_int_repr=False):
     """ See :meth:`dtaidistance.ed.euclidean_distance`"""
-    return ed.distance(s1, s2, inner_dist=inner_dist, use_ndim=use_ndim)
+    return ed.distance(s1, s2, inner_dist=inner_dist, use_ndim=use_ndim, keep_int_repr=keep_int_repr)
 
 
 def distance(s1, s2, only_ub=False, **kwargs):
